@@ -106,6 +106,62 @@ def g1_copy_propagation(ctx: Ctx):
                   'a copy `x = y` is recorded for substitution at every use of x from the shape of the assignment alone; '
                   'nothing asks whether the definition of the source `y` current at the copy still reaches those uses '
                   '(y may be reassigned in between): ' + why)
+    # the decision itself, read from its source on three definition graphs in which the copied variable moves on before the
+    # copy is read: reassigned on the straight line, reassigned in a loop body (so that only a loop-head phi follows the
+    # copied definition), reassigned in one arm of a branch.  In each the copy must be left alone.
+    from ..minipy import Interp, Obj
+    from ..lang import lang
+    L = lang(ctx.repo)
+    loops = [s for s in fn.body if isinstance(s, ast.For) and norm(s.iter) == 'def_use.defs']
+    if len(loops) != 1:
+        raise ShapeError('apply_with_status: the loop over definitions was not found')
+
+    def graph(kind: str):
+        xn, yn = Obj('NamedId', base='x'), Obj('NamedId', base='y')
+        use_y = Obj('Var', name=yn)
+        y0 = Obj('AssignDef', name=yn, site=Obj('Argument'), prev=None)
+        x1 = Obj('AssignDef', name=xn, site=Obj('Assign', target=xn, expr=use_y), prev=None)
+        y_later = Obj('AssignDef', name=yn, site=Obj('Assign', target=yn, expr=Obj('Add')), prev=None)
+        defs, succ = [y0, x1, y_later], {x1: []}
+        if kind == 'straight line':
+            succ.update({y0: [y_later], y_later: []})
+            y_later.fields['prev'] = y0
+        else:
+            phi = Obj('PhiDef', name=yn, lhs=0, rhs=2, site=Obj('WhileStmt' if kind == 'loop body' else 'IfStmt'))
+            defs.append(phi)
+            if kind == 'loop body':
+                succ.update({y0: [phi], phi: [y_later], y_later: [phi]})
+                y_later.fields['prev'] = phi
+            else:
+                succ.update({y0: [y_later, phi], y_later: [phi], phi: []})
+                y_later.fields['prev'] = y0
+        # (stand-ins hash and compare by identity, so they key the tables as the real definitions do)
+        du = Obj('DefineUseAnalysis', defs=defs, name_to_defs={yn: [d for d in defs if d.fields['name'] is yn], xn: [x1]},
+                 uses={x1: [Obj('Var', name=xn)], **{d: [] for d in defs if d is not x1}}, successors=succ,
+                 def_to_idx={d: i for i, d in enumerate(defs)}, find_def_from_use=lambda e: y0 if e is use_y else x1)
+        return du, x1
+    # (the model has to reach the decision at all: with the source never reassigned the copy is propagated)
+    du, x1 = graph('straight line')
+    du.fields['defs'] = du.fields['defs'][:2]
+    du.fields['name_to_defs'][du.fields['defs'][0].fields['name']] = [du.fields['defs'][0]]
+    du.fields['successors'][du.fields['defs'][0]] = []
+    env0 = {'def_use': du, 'names': None, 'prop': {}}
+    Interp({}, {}, is_a=lambda k, c: k == c or (c == 'Definition' and k in ('AssignDef', 'PhiDef')) or (c == 'Id' and k in ('NamedId', 'UnderscoreId', 'SourceId'))).run_stmts([loops[0]], env0)
+    if not any(k is x1 for k in env0['prop']):
+        raise ShapeError('copy propagation model: a copy of a never-reassigned source is not scheduled (the decision was not reached)')
+    deferred = None
+    for kind in ('straight line', 'loop body', 'one arm of a branch'):
+        du, x1 = graph(kind)
+        env = {'def_use': du, 'names': None, 'prop': {}}
+        it = Interp({}, {}, is_a=lambda k, c: k == c or (k in L.classes and c in L.classes and L.is_a(k, c)) or (c == 'Definition' and k in ('AssignDef', 'PhiDef'))
+                    or (c == 'Id' and k in ('NamedId', 'UnderscoreId', 'SourceId')))
+        try:
+            it.run_stmts([loops[0]], env)
+        except ShapeError as ex:
+            deferred = deferred or ShapeError(f'copy propagation decision not read ({kind}): {ex}')
+            continue
+        ctx.check(not any(k is x1 for k in env['prop']), COPY, loops[0], q, f'source reassigned afterwards in the {kind}: the copy `x = y` is not propagated',
+                  'the copy is scheduled: `acc = x; start = acc; for ..: acc = acc * 2; return acc - start` becomes `acc - acc`')
     # the substitution is keyed by the definition found from the use, never by name
     r = [s for s in walk_no_nested(sv) if isinstance(s, ast.Assign) and call_name(s.value) == 'self.def_use.find_def_from_use']
     tests = [s for s in walk_no_nested(sv) if isinstance(s, ast.If) and norm(s.test) in ('d in self.subst',)]
@@ -121,6 +177,9 @@ def g1_copy_propagation(ctx: Ctx):
     alltxt = ' && '.join(conds)
     for need in ('isinstance(d, AssignDef)', 'isinstance(d.site, Assign)', 'isinstance(d.site.target, Id)', 'isinstance(d.site.expr, Var)'):
         ctx.check(need in alltxt, COPY, inserts[0], q, f'copy shape requires {need}', f'guards: {alltxt[:200]}')
+    # a model that could not be read is an analysis error -- unless a clause above already names what is wrong
+    if deferred is not None and all(i.ok for i in ctx.instances):
+        raise deferred
 
 
 # ----------------------------------------------------------------------
@@ -444,7 +503,9 @@ def t1_literal_forms(ctx: Ctx):
     overrides = {'math.isfinite': math.isfinite, 'math.copysign': math.copysign, 'Fraction': Fraction,
                  '_rational_literal': lambda v, loc: ('rational', v), 'Decnum': lambda text, loc: ('decnum', text), 'BoolVal': lambda v, loc: ('bool', v)}
     bad = None
+    # (a decimal spelling is an exact real in FPy: `0.1` written out denotes 1/10, not the double nearest to it)
     for v, want in ((-0.0, ('decnum', '-0.0')), (0.0, ('rational', Fraction(0))), (2.5, ('rational', Fraction(5, 2))), (-3, ('rational', Fraction(-3))),
+                    (0.1, ('rational', Fraction(0.1))), (1e-7, ('rational', Fraction(1e-7))), (2.0 ** 70, ('rational', Fraction(2 ** 70))),
                     (math.inf, None), (math.nan, None), (True, ('bool', True))):
         got = Interp({}, overrides=overrides).call_function(fn, [v, None])
         same = got == want or (isinstance(got, tuple) and isinstance(want, tuple) and got[0] == 'decnum' and str(got[1]).startswith('-0') and str(want[1]).startswith('-0'))
@@ -511,6 +572,9 @@ RULES = [
 from ..selftest import Mutant  # noqa: E402
 
 MUTANTS = [
+    Mutant('copy-guard-ignores-loop-phis', COPY, "                if len(def_use.name_to_defs[d.site.expr.name]) != 1:\n                    continue\n",
+           "                src = def_use.find_def_from_use(d.site.expr)\n                if any(isinstance(s, AssignDef) for s in def_use.successors[src]):\n                    continue\n", 'C07.G1',
+           'seeded change C07e: a source reassigned in a loop body is followed by a phi, not by an assignment'),
     Mutant('shallow-copies-taken-for-new-lists', PURITY, "                case ListSlice():\n                    # a new list of the same elements\n                    sources.append(e.value)\n                case ListComp():\n                    sources += [e.elt, *e.iterables]\n                case Enumerate():\n                    sources.append(e.arg)\n                case Zip():\n                    sources += list(e.args)\n", "", 'C07.X1',
            'finding F91 before its repair: for i, row in enumerate(m): row[0] = 0 is pure to the analysis'),
     Mutant('list-literal-hides-its-rows', PURITY, "                case TupleExpr() | ListExpr():", "                case TupleExpr():", 'C07.X1'),
